@@ -902,6 +902,8 @@ class Interp:
                 y.env[idx_name] = VInt(kk + 1)
                 for label, e in invs:
                     self.oblige(y, f'inv#{k}.preserve.{label}', self.spec(y, e, pre=body_pre), text=e)
+                if os.environ.get('PYVC_CANARY'):
+                    self.oblige(y, f'canary.loop#{k}.end', z3.BoolVal(False), text='canary (must not be provable)')
             elif sig.kind == 'break':
                 y.env[idx_name] = VInt(kk)
                 outs.append((y, None))
